@@ -406,3 +406,28 @@ def r5_8(rep):
     # the evaluated cursor is reached by descending through first children only (no re-typing on the way is decided by the text above)
     ev = [c for c in b.calls(lambda n: n["k"] == "MCall" and n.get("name") == "evaluate")]
     rep.check(bool(ev), "fallback-evaluates-the-expression", "the expression cursor is handed to clang's evaluator", b.loc(b.root))
+
+
+@RULES.rule("R5.9", "a function-like macro never reaches the constant evaluator, whether or not callbacks are registered", floor=1)
+def r5_9(rep):
+    """Only object-like macros have a value.  `Var::parse` leaves function-like ones to `ParseCallbacks::func_macro` and returns — but
+    that exit sits inside the loop over the registered callbacks, so with no callback at all (the plain CLI) `#define F(x) -x` is
+    handed to the expression evaluator, which reads it as the object-like `F` = `(x) - x`: with `#define x 2` in scope bindgen emits
+    `pub const F: u32 = 0;`."""
+    prog = rep.prog
+    b = rep.need(prog.impl_fn("parse::ClangSubItemParser", "ir::var::Var", "parse"), "<Var as ClangSubItemParser>::parse")
+    exits = []
+    for r in b.nodes:
+        if r["k"] != "Ret":
+            continue
+        if any(kind == "cond" and pol and "is_macro_function_like" in b.canon(g, 4) for pol, kind, g in b.guards(r)):
+            exits.append(r)
+    rep.need(exits, "the `if cursor.is_macro_function_like() { .. return }` exit in Var::parse")
+    for r in exits:
+        loops = [a for a in b.ancestors(r) if a["k"] == "For" and "parse_callbacks" in b.canon(a["iter"], 5)]
+        rep.check(not loops, "function-like-exit-unconditional", "the exit does not depend on a callback being registered" if not loops else
+                  "the exit is inside `for callbacks in parse_callbacks`: without any callback a function-like macro is evaluated as if it were "
+                  "object-like", b.loc(r))
+    evals = [c for c in b.calls(lambda n: n["k"] == "Call" and str(n.get("callee") or "").endswith("var::parse_macro"))]
+    rep.check(bool(evals) and all(c["_i"] > max(r["_i"] for r in exits) for c in evals), "evaluator-after-exit",
+              "parse_macro runs after the function-like exit", b.loc(evals[0]) if evals else b.loc(b.root))
